@@ -53,9 +53,9 @@ pub fn natural_width(case: &Case) -> Option<usize> {
 pub static C01: E1Prop = E1Prop {
     id: "C01",
     oracle: |c, o, _| oracle::c01(c, o),
-    rule: "T0: every pinned corpus file x 25 catalogue configurations; T1: grammar-generated programs (all six syntaxes, statement-level comments, random configuration, optional range, optional require sorting). Oracle: output re-parses with full_moon under the same syntax and the checker's lexer accepts it. Non-trivial: output differs from input and the input has >= 6 code tokens; distinct by hash of (source, config, range).",
+    rule: "T0: every pinned corpus file x 25 catalogue configurations; T2: a passing corpus pair with 1-3 comments inserted at statement level (own line before a statement, end of line after a statement); T1: grammar-generated programs (all six syntaxes, statement-level comments, random configuration, optional range, optional require sorting). Oracle: output re-parses with full_moon under the same syntax and the checker's lexer accepts it. Non-trivial: output differs from input and the input has >= 6 code tokens; distinct by hash of (source, config, range).",
     gen_case: gen_c01,
-    quick_cases: 40_000,
+    quick_cases: 200_000,
     thorough_cases: 2_000_000,
     use_t0: true,
     tape_len: 600,
@@ -63,14 +63,15 @@ pub static C01: E1Prop = E1Prop {
     extra: None,
     exclude: None,
     raw_oracle: None,
+    t2_cases: (20_000, 400_000),
 };
 
 pub static C02: E1Prop = E1Prop {
     id: "C02",
     oracle: |c, o, _| oracle::c02(c, o),
-    rule: "T0 + T1 as C01 with sort_requires off. Oracle: semantic normal form N (own walk over full_moon's tree: parentheses, semicolons, separators, quote/escape/number spelling and call sugar erased, truncating parentheses kept) and semantic token sequence T (own lexer) are equal for input and output. Non-trivial: output differs and the input contains a redundant parenthesis, semicolon, escape / single-quoted string, leading-dot number or call sugar.",
+    rule: "T0 + T2 + T1 as C01 with sort_requires off. Oracle: semantic normal form N (own walk over full_moon's tree: parentheses, semicolons, separators, quote/escape/number spelling and call sugar erased, truncating parentheses kept) and semantic token sequence T (own lexer) are equal for input and output. Non-trivial: output differs and the input contains a redundant parenthesis, semicolon, escape / single-quoted string, leading-dot number or call sugar.",
     gen_case: gen_c02,
-    quick_cases: 40_000,
+    quick_cases: 60_000,
     thorough_cases: 2_000_000,
     use_t0: true,
     tape_len: 600,
@@ -78,14 +79,15 @@ pub static C02: E1Prop = E1Prop {
     extra: None,
     exclude: None,
     raw_oracle: None,
+    t2_cases: (20_000, 400_000),
 };
 
 pub static C03: E1Prop = E1Prop {
     id: "C03",
     oracle: |c, o, _| oracle::c03(c, o),
-    rule: "T0 + T1 (programs with comments in whitelisted statement-level roles, shebang, all comment forms). Oracle: multiset of comments (own lexer; line comments right-trimmed, CRLF->LF inside block comments) is unchanged and the code token sequence T is unchanged. Non-trivial: at least one comment and output differs from input.",
+    rule: "T0 + T2 (corpus pairs with inserted statement-level comments) + T1 (programs with comments in whitelisted statement-level roles, after block openers, shebang, all comment forms). Oracle: multiset of comments (own lexer; line comments right-trimmed, CRLF->LF inside block comments) is unchanged and the code token sequence T is unchanged. Non-trivial: at least one comment and output differs from input.",
     gen_case: gen_c03,
-    quick_cases: 40_000,
+    quick_cases: 200_000,
     thorough_cases: 2_000_000,
     use_t0: true,
     tape_len: 600,
@@ -93,14 +95,15 @@ pub static C03: E1Prop = E1Prop {
     extra: None,
     exclude: None,
     raw_oracle: None,
+    t2_cases: (20_000, 400_000),
 };
 
 pub static C06: E1Prop = E1Prop {
     id: "C06",
     oracle: |c, o, _| oracle::c06(c, o),
-    rule: "T0 + T1 without range. Oracle: format(format(p,c),c) == format(p,c) byte for byte. Non-trivial: first output differs from the input and has >= 2 lines.",
+    rule: "T0 + T2 (corpus pairs, all catalogue widths, with inserted statement-level comments) + T1 (clean programs at roomy widths) without range. Oracle: format(format(p,c),c) == format(p,c) byte for byte. Non-trivial: first output differs from the input and has >= 2 lines.",
     gen_case: gen_c06,
-    quick_cases: 30_000,
+    quick_cases: 150_000,
     thorough_cases: 1_500_000,
     use_t0: true,
     tape_len: 600,
@@ -108,6 +111,7 @@ pub static C06: E1Prop = E1Prop {
     extra: None,
     exclude: None,
     raw_oracle: None,
+    t2_cases: (20_000, 400_000),
 };
 
 fn gen_c04(t: &mut Tape, l: &mut Vec<&'static str>) -> Option<Case> {
@@ -127,6 +131,7 @@ pub static C04: E1Prop = E1Prop {
     extra: Some(crate::enums::c04_extra),
     exclude: None,
     raw_oracle: None,
+    t2_cases: (20_000, 400_000),
 };
 
 fn gen_none(_t: &mut Tape, _l: &mut Vec<&'static str>) -> Option<Case> {
@@ -149,6 +154,7 @@ pub static C05: E1Prop = E1Prop {
     extra: Some(crate::enums::c05_extra),
     exclude: None,
     raw_oracle: None,
+    t2_cases: (0, 0),
 };
 
 fn gen_c08(t: &mut Tape, l: &mut Vec<&'static str>) -> Option<Case> {
@@ -168,6 +174,7 @@ pub static C08: E1Prop = E1Prop {
     extra: None,
     exclude: None,
     raw_oracle: None,
+    t2_cases: (0, 0),
 };
 
 fn gen_c09(t: &mut Tape, l: &mut Vec<&'static str>) -> Option<Case> {
@@ -287,7 +294,7 @@ pub static C09: E1Prop = E1Prop {
     oracle: |c, o, _| oracle::c09(c, o),
     rule: "T1: generated programs x ranges derived from the statement spans of the trusted parse (exactly one statement at any depth, a run of statements, mid-token, nudged by 0-4 bytes, open-ended on either side, empty / inverted, whole file, random offsets). Oracle: statements are classified inside / outside by the documented rule (a statement ending exactly one byte past the end bound is left unclaimed: README and implementation disagree there); (1) the text before the first and after the last affected statement is unchanged, (2) every outside statement keeps its source text piecewise around affected descendants, located at the same semantic-token position, (3) every outermost inside statement has the same text as in a whole-file run (aligned through the token sequence T), (4) if no statement is inside, the text up to the last token is unchanged. Non-trivial: at least one statement inside and one outside, the inside one compared against the whole-file run, and the output differs from the input.",
     gen_case: gen_c09,
-    quick_cases: 120_000,
+    quick_cases: 200_000,
     thorough_cases: 2_000_000,
     use_t0: false,
     tape_len: 600,
@@ -295,6 +302,7 @@ pub static C09: E1Prop = E1Prop {
     extra: None,
     exclude: Some(|c| if typed_local_cut_by_range(c) { Some("KF-C09-node-end-position") } else { None }),
     raw_oracle: None,
+    t2_cases: (0, 0),
 };
 
 fn gen_c12(t: &mut Tape, l: &mut Vec<&'static str>) -> Option<Case> {
@@ -319,6 +327,7 @@ pub static C12: E1Prop = E1Prop {
     extra: None,
     exclude: Some(|c| if c.cfg.sort_requires && (c.source.contains("stylua: ignore start") || c.source.contains("stylua: ignore end")) { Some("KF-C12-ignore-region") } else { None }),
     raw_oracle: None,
+    t2_cases: (0, 0),
 };
 
 pub fn e1_prop(id: &str) -> Option<&'static E1Prop> {
@@ -405,7 +414,7 @@ pub static C10: E1Prop = E1Prop {
     oracle: |c, o, _| oracle::c10(c, o),
     rule: "T0 (corpus files without ignore directives x 25 configurations) + T1: generated programs re-rendered with LF / CRLF / mixed newlines and tab / space / mixed indentation, random (line_endings, indent_type, indent_width, column_width). Oracle on the output bytes, masked by the checker's lexer: outside string literals every LF is preceded by CR iff Windows and no other CR occurs; every line starting outside a multi-line token is indented with tabs only (Tabs) or a multiple of indent_width spaces (Spaces); non-empty output ends with exactly one line ending. Non-trivial: the input's newline convention / indentation / final newline differs from the configured one and the output differs from the input.",
     gen_case: gen_c10,
-    quick_cases: 60_000,
+    quick_cases: 200_000,
     thorough_cases: 2_000_000,
     use_t0: true,
     tape_len: 600,
@@ -413,6 +422,7 @@ pub static C10: E1Prop = E1Prop {
     extra: None,
     exclude: None,
     raw_oracle: None,
+    t2_cases: (20_000, 400_000),
 };
 
 // ---------------------------------------------------------------------------------------------
@@ -427,7 +437,7 @@ pub static C11: E1Prop = E1Prop {
     oracle: |c, o, _| oracle::c11(c, o),
     rule: "T0 + T1 over all 4 quote styles x 5 call-parentheses modes x 4 space modes x widths. Oracle on the re-parsed output: every quoted string uses the quote its style demands (counting quote characters in the body), every call site has the form its mode demands (Always: parentheses; None/NoSingle*: no parentheses around a single plain string/table argument unless an index or method call follows; Input: sequence of forms unchanged), and the gap before every call / definition `(` on the same line is one space exactly when the option names that case. Non-trivial: the program has a string with an inner quote or single quotes, a sugar call or a single-literal call, or a non-default space option, and the output differs from the input.",
     gen_case: gen_c11,
-    quick_cases: 60_000,
+    quick_cases: 100_000,
     thorough_cases: 2_000_000,
     use_t0: true,
     tape_len: 600,
@@ -435,6 +445,7 @@ pub static C11: E1Prop = E1Prop {
     extra: None,
     exclude: Some(oracle::c11_known_finding),
     raw_oracle: None,
+    t2_cases: (20_000, 400_000),
 };
 
 // ---------------------------------------------------------------------------------------------
@@ -543,6 +554,7 @@ pub static C07: E1Prop = E1Prop {
     extra: Some(c07_scaling),
     exclude: None,
     raw_oracle: Some(|c, o, t| oracle::c07(c, o, t)),
+    t2_cases: (20_000, 400_000),
 };
 
 use crate::oracle::Verdict;
